@@ -36,6 +36,7 @@ PROBES = [
     "commit-then-rollback",
     "noop-add",
     "noop-remove",
+    "batch-died-midway",
 ]
 KNOWN_PREDICATES = {}
 
@@ -115,6 +116,8 @@ def generate(seed, tier):
             op["q"] = [[g.pick(subs), g.pick(preds), g.pick(objs), g.randrange(ngraphs)] for _ in range(g.randint(1, 4))]
             op["via"] = g.choice(["graph", "cg"])
             op["g"] = g.randrange(ngraphs)
+            if g.chance(0.25):
+                op["fail_after"] = g.randrange(len(op["q"]) + 1)  # fault: the batch source raises after k quads
         elif kind == "remove":
             op["t"] = [g.pick(subs), g.pick(preds), g.pick(objs)]
             op["g"] = g.choice([None] + list(range(ngraphs)) * 2)
@@ -249,19 +252,38 @@ def execute(trace, ctx):
                 st.add(triple, Graph(st, T(gname)))
             model.add(q)
         elif k == "addN":
+            fa = op.get("fail_after")
+            qspecs = op["q"] if fa is None else op["q"][:fa]
+
+            class SourceDied(Exception):
+                pass
+
+            def feed(quads):
+                for q in quads[: fa if fa is not None else len(quads)]:
+                    yield q
+                if fa is not None:
+                    ctx.fault("batch-source-raised")
+                    raise SourceDied()
+
             if via == "graph":
                 # Graph.addN keeps only quads whose context *is* this graph (identity of the identifier), so hand it the handle itself
                 me = Graph(st, T(gname))
                 quads = [(T(s), T(p), T(o), me if skey(graphs[gi % len(graphs)]) == skey(gname) else Graph(st, T(graphs[gi % len(graphs)]))) for s, p, o, gi in op["q"]]
-                me.addN(quads)
-                for s, p, o, gi in op["q"]:
+                try:
+                    me.addN(feed(quads))
+                except SourceDied:
+                    ctx.probe("batch-died-midway")
+                for s, p, o, gi in qspecs:
                     # Graph.addN keeps only quads whose context is this graph
                     if skey(graphs[gi % len(graphs)]) == skey(gname):
                         model.add((skey(s), skey(p), skey(o), skey(gname)))
             else:
                 quads = [(T(s), T(p), T(o), Graph(st, T(graphs[gi % len(graphs)]))) for s, p, o, gi in op["q"]]
-                ConjunctiveGraph(st, identifier=T(graphs[0])).addN(quads)
-                for s, p, o, gi in op["q"]:
+                try:
+                    ConjunctiveGraph(st, identifier=T(graphs[0])).addN(feed(quads))
+                except SourceDied:
+                    ctx.probe("batch-died-midway")
+                for s, p, o, gi in qspecs:
                     model.add((skey(s), skey(p), skey(o), skey(graphs[gi % len(graphs)])))
         elif k == "remove":
             t = op["t"]
